@@ -163,7 +163,7 @@ func policyCase(c *Ctx, si int, shape *tnode, assign, pols []int, args []string)
 	if !strings.Contains(o.Stderr, "Error: ") {
 		bad = "no `Error:` line on the error stream"
 	}
-	if !hasLine(o.Stderr, usageLine(r.rejectAt, assign)) {
+	if !hasUsageOf(o.Stderr, r.rejectAt) {
 		bad = "the error stream lacks the usage line of the rejecting command: " + usageLine(r.rejectAt, assign)
 	}
 	switch pol {
